@@ -1013,6 +1013,13 @@ func gen(t *common.Trace, e common.Engine, r *common.Rng, thorough bool) {
 	// common.NewRng(seed) makes the streams of consecutive seeds shifted copies
 	// of one another: re-seed from a hash of the seed
 	r = common.NewRng((r.U64() ^ 0x5851F42D4C957F2D) * (2*common.Seed() + 1))
+	// the websocket reader itself (everything else in this engine enters below it)
+	t.Case("readerprobe")
+	e.Reset()
+	for k := 0; k < 6; k++ {
+		common.Do(t, e, fmt.Sprintf("readerprobe %d", r.Intn(1000000)))
+	}
+	common.Do(t, e, fmt.Sprintf("slowmember %d", r.Range(20, 150)))
 	for n := 0; n < ncases; n++ {
 		g := &gstate{t: t, e: e, r: r, thorough: thorough, sleeps: &sleeps, maxSleep: maxSleep, histAge: map[string]int{}}
 		t.Case(fmt.Sprint(n))
